@@ -330,8 +330,10 @@ static Result check_motion(const J &c)
       for (auto &f : root.at("features").a) { const std::string tg = f.has("tag") ? f.at("tag").str() : f.at("model").str(); if (tg == a.tag || tg == b.tag) owner = f.at("model").str(); }
       std::string sig = fr.sph ? "sph-longitude-offset" : "cart-rigid-motion";
       if (owner == "plume" && fr.sph) sig = "plume-longitude-alias";
+      // exactly collinear coordinates are the more specific (and listed) root cause: the mirrored control point bends the curve into
+      // an S, on which the reported foot is then often a local minimum as well
       if (has_collinear_trench(root)) sig = "collinear-trench-coordinates";
-      if (foot_not_global(root, fr.sph, q.at("nat")[0].num(), q.at("nat")[1].num()) || foot_not_global(moved, fr.sph, q2.at("nat")[0].num(), q2.at("nat")[1].num()))
+      else if (foot_not_global(root, fr.sph, q.at("nat")[0].num(), q.at("nat")[1].num()) || foot_not_global(moved, fr.sph, q2.at("nat")[0].num(), q2.at("nat")[1].num()))
         sig = "curved-trench-foot-is-a-local-minimum";
       return Result::fail(sig, std::string(fr.sph ? "longitude offset " + fmt(m.dlon) : "rotation " + fmt(m.angle_deg) + " deg + translation (" + fmt(m.tx) + "," + fmt(m.ty) + ")") + " changes the answer (" + what + ") at " + q.dump() + " -> " + q2.dump());
     }
